@@ -28,6 +28,19 @@ class Count(int):
         return "<Count " + int.__repr__(self) + ">"
 
 
+import collections
+
+Pair = collections.namedtuple("Pair", "a b")
+
+
+class MyList(list):
+    pass
+
+
+class MyStr(str):
+    pass
+
+
 class Bad:
     """an object of unsupported type"""
 
@@ -72,7 +85,7 @@ _T1 = Tag("b", "one")
 _T2 = Tag("i")
 _DEP = HTMLDependency("d", "1.0")
 _H = HTML("<h>")
-N_KIND = 17
+N_KIND = 19
 
 
 def arg(kind: int, s: str):
@@ -108,6 +121,10 @@ def arg(kind: int, s: str):
         return [Level.HIGH, Count(5)]          # number subclasses whose repr() differs from str()
     if kind == 16:
         return Metres(2.5)
+    if kind == 17:
+        return Pair("n1", MyList(["n2", Pair(None, 4)]))       # tuple / list subclasses are spliced like tuples / lists
+    if kind == 18:
+        return MyStr("sub<class")                              # a str subclass is a string: kept whole
     return [[[_T1]], TagList(), (None,)]
 
 
